@@ -35,7 +35,8 @@ Proof. exact bstep_err_declared. Qed.
 Print Assumptions C05_buffer_errors_declared.
 
 (* L1 - exact Ok conditions: insertion never trips the Document assertion;
-   deletion before the cursor needs count >= 0; up/down need count >= 1 *)
+   deletion before the cursor needs count >= 0; up/down are total for every
+   count (since the fix of finding C05-F1, commit 46fed32) *)
 Theorem C05_insert_total : forall s d ow mv,
   CInv s -> (exists s', insert_text s d ow mv = EOk s') \/
             (ero s = true /\ insert_text s d ow mv = EErr E_READONLY s).
@@ -54,13 +55,13 @@ Theorem C05_delete_total : forall s n,
 Proof. exact delete_total. Qed.
 Print Assumptions C05_delete_total.
 
-Theorem C05_cursor_up_ok_iff : forall s n, (exists s', cursor_up s n = EOk s') <-> 1 <= n.
-Proof. exact cursor_up_ok_iff. Qed.
-Print Assumptions C05_cursor_up_ok_iff.
+Theorem C05_cursor_up_total : forall s n, exists s', cursor_up s n = EOk s'.
+Proof. exact cursor_up_total. Qed.
+Print Assumptions C05_cursor_up_total.
 
-Theorem C05_cursor_down_ok_iff : forall s n, (exists s', cursor_down s n = EOk s') <-> 1 <= n.
-Proof. exact cursor_down_ok_iff. Qed.
-Print Assumptions C05_cursor_down_ok_iff.
+Theorem C05_cursor_down_total : forall s n, exists s', cursor_down s n = EOk s'.
+Proof. exact cursor_down_total. Qed.
+Print Assumptions C05_cursor_down_total.
 
 (* L2 - after KeyProcessor._fix_vi_cursor_position, in Vi navigation mode the
    cursor does not rest past the last character of a non-empty line *)
@@ -106,21 +107,21 @@ Theorem C05_key_sequence_inv_partial : forall ks s, EInv s -> EInv (hsteps s ks)
 Proof. exact hsteps_inv. Qed.
 Print Assumptions C05_key_sequence_inv_partial.
 
-(* L4 - totality: with a repeat count >= 1 and multiple cursors within the text
-   no exception leaves _call_handler (EditReadOnlyBuffer is swallowed). *)
+(* L4 - totality: for ANY repeat count (zero and negative included), with
+   multiple cursors within the text, no exception leaves _call_handler
+   (EditReadOnlyBuffer is swallowed). *)
 Theorem C05_step_total_partial : forall h s arg data,
-  EInv s -> MInv s -> 1 <= arg ->
+  EInv s -> MInv s ->
   exists s', call_handler h s arg data = EOk s' /\ EInv s'.
 Proof. exact call_handler_total. Qed.
 Print Assumptions C05_step_total_partial.
 
-(* ... and without the count hypothesis the statement is false (finding F15:
-   Meta-minus / Meta-0 then Down in Emacs mode): the AssertionError of
-   Document.get_cursor_down_position escapes. *)
-Theorem C05_step_total_refuted :
-  exists s arg, EInv s /\ MInv s /\ call_handler HEmacsAutoDown s arg [] = EErr E_ASSERT s.
-Proof. exact updown_nonpositive_escapes. Qed.
-Print Assumptions C05_step_total_refuted.
+(* ... the multiple-cursor hypothesis is necessary: with a position beyond
+   the text, Backspace in insert-multiple mode raises IndexError. *)
+Theorem C05_step_total_needs_multicursor_range :
+  exists s, EInv s /\ ~ MInv s /\ call_handler HViBackspaceMulti s 1 [] = EErr E_INDEX s.
+Proof. exact stale_multicursor_escapes. Qed.
+Print Assumptions C05_step_total_needs_multicursor_range.
 
 (* L4 - accept returns exactly the buffer text *)
 Theorem C05_accept_returns_text : forall s, accept_result s = et s.
